@@ -117,8 +117,9 @@ Qed.
 
 (* ---- the special-value table of FMA ---- *)
 (* x*y per mul_table, then (x*y) + u per add_table.  SCopyY = the finite addend
-   u, rounded as by Set (FMA_zero_product); SFinite = x and y finite (FMA_correct,
-   FMA_zero_addend and, for an infinite addend, FMA_finite_inf). *)
+   u, rounded as by Set (FMA_zero_product); x and y finite: an infinite addend
+   is the result (the product is not even computed), otherwise SFinite
+   (FMA_correct, FMA_zero_addend). *)
 Definition fma_table (md : mode) (x y u : Dec) : sres :=
   let s := xorb (neg x) (neg y) in
   match mul_table x y with
@@ -134,7 +135,7 @@ Definition fma_table (md : mode) (x y u : Dec) : sres :=
       | Finf => SVal Finf (neg u)
       | Ffinite => SCopyY
       end
-  | _ => SFinite
+  | _ => match dform u with Finf => SVal Finf (neg u) | _ => SFinite end
   end.
 
 Lemma eff_prec3_range z x y u : 0 <= prec z <= MaxPrec -> 0 <= prec x <= MaxPrec -> 0 <= prec y <= MaxPrec ->
@@ -264,6 +265,7 @@ Section FmaSpecial.
     assert (EF : FMA zu z x y u =
       match dform x, dform y with
       | Ffinite, Ffinite =>
+          if form_eqb (dform u) Finf then Set_ zu z1 u else
           match umul (with_prec z0 MaxPrec) x y with
           | None => CrashR
           | Some z0' => Add (negb zu) zu (if zu then z1 else with_prec z0' (prec z0)) (with_prec z0' (prec z0)) u
@@ -324,100 +326,27 @@ Proof.
   rewrite E0 in H. exact H.
 Qed.
 
-(* the exact product of finite operands, computed at MaxPrec, is not an infinity
-   as long as its magnitude stays below 10^MaxExp *)
-Lemma umul_maxprec z0 x y :
-  WF x -> WF y -> dform x = Ffinite -> dform y = Ffinite -> neg z0 = xorb (neg x) (neg y) ->
-  mdigits (mant x) + mdigits (mant y) < 4294967296 - 18 ->
-  (mag x * mag y < scaled 1 MaxExp)%Q ->
-  exists zP, umul (with_prec z0 MaxPrec) x y = Some zP /\ dform zP <> Finf /\ dmode zP = dmode z0.
-Proof.
-  intros Wx Wy Fx Fy Hn Hlen Hhi.
-  pose proof (WF_finite x Wx Fx) as Hx. pose proof (WF_finite y Wy Fy) as Hy.
-  pose proof (WFfin_val_bounds x Hx) as HNx. pose proof (WFfin_val_bounds y Hy) as HNy.
-  destruct (WFfin_len x Hx) as [Hlx HLx]. destruct (WFfin_len y Hy) as [Hly HLy].
-  set (zM := with_prec z0 MaxPrec).
-  assert (PM : 0 <= prec zM <= MaxPrec) by (cbn; unfold MaxPrec; lia).
-  pose proof (Mul_correct zM x y Wx Wy Fx Fy PM Hlen) as HMul.
-  assert (EM : eff_prec zM x y = MaxPrec) by (unfold eff_prec; cbn [prec zM with_prec]; unfold MaxPrec; reflexivity).
-  rewrite EM in HMul.
-  assert (EMul : Mul zM x y = of_opt (umul zM x y)).
-  { unfold Mul. rewrite Fx, Fy. cbn [prec zM with_prec]. unfold MaxPrec at 1. cbn [Z.eqb].
-    rewrite <- Hn. destruct z0; reflexivity. }
-  rewrite EMul in HMul. destruct HMul as (zP & EP & HSP & HpP & HmP & WP).
-  destruct (umul zM x y) as [zP'|] eqn:EU; [|discriminate]. cbn [of_opt] in EP. injection EP as ->.
-  exists zP. split; [reflexivity|]. split; [|exact HmP].
-  set (ng := xorb (neg x) (neg y)) in *.
-  destruct (Qlt_le_dec (mag x * mag y) (scaled 1 (MinExp - 1))) as [Hlo|Hlo].
-  - destruct HSP as [_ H]. destruct (Qlt_le_dec (mag x * mag y) (scaled 1 (MinExp - 1))) as [_|C]; [|exfalso; lra].
-    destruct H as [Hf _]. congruence.
-  - set (Nx := val (mant x)) in *. set (Ny := val (mant y)) in *.
-    set (Lx := mdigits (mant x)) in *. set (Ly := mdigits (mant y)) in *.
-    assert (HNx0 : 0 < Nx) by (assert (0 < 10 ^ (Lx - 1)) by (apply pow10_pos; lia); lia).
-    assert (HNy0 : 0 < Ny) by (assert (0 < 10 ^ (Ly - 1)) by (apply pow10_pos; lia); lia).
-    assert (Hprod : (mag x * mag y == scaled (Nx * Ny) (exp x - Lx + (exp y - Ly)))%Q) by (unfold mag; apply scaled_mul).
-    assert (Hrep : RoundsDir (dir_of (dmode zM) ng) MaxPrec (mag x * mag y) (mag x * mag y)).
-    { eapply RoundsDir_ext; [symmetry; exact Hprod|symmetry; exact Hprod|].
-      apply int_rounds; [unfold MaxPrec; lia|]. split; [nia|].
-      apply Z.lt_le_trans with (10 ^ (Lx + Ly)); [rewrite Z.pow_add_r by lia; nia|].
-      apply Z.pow_le_mono_r; unfold MaxPrec; lia. }
-    destruct (result_spec_exact MaxPrec (dmode zM) ng (mag x * mag y) zP ltac:(unfold MaxPrec; lia) HSP Hlo Hhi Hrep)
-      as (FP & _). congruence.
-Qed.
-
-(* finite x, y and an infinite addend: the addend (as long as the exact product
-   does not overflow the exponent range; beyond it see FMA_overflow_inf_nan) *)
+(* finite x, y and an infinite addend: the addend, whatever the size of the product
+   (the row of fma_table, stated on its own) *)
 Theorem FMA_finite_inf zu z x y u :
   WF x -> WF y -> WF u -> dform x = Ffinite -> dform y = Ffinite -> dform u = Finf ->
   0 <= prec z <= MaxPrec -> (zu = true -> z = u) ->
-  mdigits (mant x) + mdigits (mant y) < 4294967296 - 18 ->
-  (mag x * mag y < scaled 1 MaxExp)%Q ->
   SpecialPost z (eff_prec3 z x y u) (SVal Finf (neg u)) (FMA zu z x y u).
 Proof.
-  intros Wx Wy Wu Fx Fy Fu Pz Hzu Hlen Hhi.
-  pose proof (WF_prec x Wx) as Px. pose proof (WF_prec y Wy) as Py. pose proof (WF_prec u Wu) as Pu.
-  pose proof (WF_finite x Wx Fx) as [_ _ _ Hpx _ _].
-  pose proof (eff_prec3_range z x y u Pz Px Py Pu) as Pe.
-  assert (Pe1 : 1 <= eff_prec3 z x y u).
-  { unfold eff_prec3. rewrite !umax32_spec. destruct (Z.eqb_spec (prec z) 0); lia. }
-  unfold FMA. rewrite Fu, Fx, Fy.
-  set (z1 := if prec z =? 0 then with_prec z (umax32 (umax32 (prec x) (prec y)) (prec u)) else z).
-  assert (Hp1 : prec z1 = eff_prec3 z x y u) by (unfold z1, eff_prec3; destruct (prec z =? 0); reflexivity).
-  assert (Hm1 : dmode z1 = dmode z) by (unfold z1; destruct (prec z =? 0); reflexivity).
-  assert (Hf1 : zu = true -> dform z1 = dform u /\ neg z1 = neg u).
-  { intros E. specialize (Hzu E). subst z. unfold z1. destruct (prec u =? 0); split; reflexivity. }
-  set (z0 := with_neg (if zu then mkDec [] 0 (prec z1) (dmode z1) Exact Fzero false else z1) (xorb (neg x) (neg y))).
-  assert (Hp0 : prec z0 = eff_prec3 z x y u) by (unfold z0; destruct zu; cbn [prec with_neg]; assumption).
-  assert (Hm0 : dmode z0 = dmode z) by (unfold z0; destruct zu; cbn [dmode with_neg]; assumption).
-  destruct (umul_maxprec z0 x y Wx Wy Fx Fy eq_refl Hlen Hhi) as (zP & EU & FP & MP).
-  rewrite EU.
-  set (zPp := with_prec zP (prec z0)). set (recv := if zu then z1 else zPp).
-  assert (Hpr : prec recv = eff_prec3 z x y u) by (unfold recv, zPp; destruct zu; [exact Hp1|exact Hp0]).
-  assert (Hmr : dmode recv = dmode z).
-  { unfold recv, zPp. destruct zu; [exact Hm1|]. cbn [dmode with_prec]. rewrite MP. exact Hm0. }
-  assert (Hfr : zu = true -> dform recv = dform u /\ neg recv = neg u) by (unfold recv; destruct zu; [exact Hf1|discriminate]).
-  assert (EA : Add (negb zu) zu recv zPp u = Set_ zu recv u).
-  { unfold Add. rewrite Fu. cbn [zPp dform with_prec]. destruct (Z.eqb_spec (prec recv) 0); [lia|].
-    destruct (dform zP); [reflexivity|reflexivity|congruence]. }
-  rewrite EA. cbn [SpecialPost].
-  destruct (Set_nonfinite zu recv u ltac:(congruence) ltac:(lia) Pu Hfr) as (z' & E & Hf & Hn & Ha & W & Hp & Hm).
-  exists z'. split; [exact E|]. split; [congruence|]. split; [exact Hn|]. split; [exact Ha|]. split; [exact W|].
-  split; [|congruence]. rewrite Hp, Hpr. destruct zu; [reflexivity|].
-  destruct (Z.eqb_spec (eff_prec3 z x y u) 0); [lia|reflexivity].
+  intros Wx Wy Wu Fx Fy Fu Pz Hzu.
+  pose proof (FMA_special zu z x y u Wx Wy Wu Pz Hzu) as H.
+  unfold fma_table, mul_table in H. rewrite Fx, Fy, Fu in H. exact H.
 Qed.
 
-(* ---- exactly the invalid operations raise ErrNaN ---- *)
+(* ---- exactly the invalid operations raise ErrNaN (for ALL operands) ---- *)
 Definition fma_invalid (x y u : Dec) : Prop :=
   (dform x = Fzero /\ dform y = Finf) \/ (dform x = Finf /\ dform y = Fzero) \/
   ((dform x = Finf \/ dform y = Finf) /\ dform u = Finf /\ xorb (neg x) (neg y) <> neg u).
 
 Theorem FMA_nan_iff zu z x y u :
-  (dform x = Ffinite -> dform y = Ffinite -> dform u = Finf ->
-     WF x /\ WF y /\ mdigits (mant x) + mdigits (mant y) < 4294967296 - 18 /\
-     (mag x * mag y < scaled 1 MaxExp)%Q) ->
-  ((exists z', FMA zu z x y u = NaNR z') <-> fma_invalid x y u).
+  (exists z', FMA zu z x y u = NaNR z') <-> fma_invalid x y u.
 Proof.
-  intros Hguard. unfold fma_invalid, FMA.
+  unfold fma_invalid, FMA.
   set (z1 := if prec z =? 0 then with_prec z (umax32 (umax32 (prec x) (prec y)) (prec u)) else z).
   destruct (dform u) eqn:Fu.
   - (* zero addend: the invalid products *)
@@ -432,34 +361,59 @@ Proof.
       * intros [z' E]. discriminate.
       * intros H. exfalso. assert (exists z', CrashR = NaNR z') as [z' E]; [apply HM; intuition congruence|discriminate].
   - (* finite addend: only the invalid products *)
-    destruct (dform x) eqn:Fx, (dform y) eqn:Fy; cbv zeta;
+    destruct (dform x) eqn:Fx, (dform y) eqn:Fy; cbv zeta; cbn [form_eqb];
       try (split; [intros [z' E]; exfalso; revert E; apply Set_not_nan|intros H; exfalso; intuition congruence]);
       try (split; [intros _; intuition congruence|intros _; eexists; reflexivity]);
       try (etransitivity; [apply Add_nan_iff|]; rewrite Fu; intuition congruence).
     destruct (umul _ x y) as [zP|]; [|split; [intros [z' E]; discriminate|intros H; exfalso; intuition congruence]].
     etransitivity; [apply Add_nan_iff|]. rewrite Fu; intuition congruence.
   - (* infinite addend *)
-    destruct (dform x) eqn:Fx, (dform y) eqn:Fy; cbv zeta;
+    destruct (dform x) eqn:Fx, (dform y) eqn:Fy; cbv zeta; cbn [form_eqb];
       try (split; [intros [z' E]; exfalso; revert E; apply Set_not_nan|intros H; exfalso; intuition congruence]);
       try (split; [intros _; intuition congruence|intros _; eexists; reflexivity]);
       try (etransitivity; [apply Add_nan_iff|]; rewrite Fu;
            cbn [dform neg with_form with_acc with_neg]; intuition congruence).
-    destruct (Hguard eq_refl eq_refl eq_refl) as (Wx & Wy & Hlen & Hhi).
-    set (z0 := with_neg (if zu then mkDec [] 0 (prec z1) (dmode z1) Exact Fzero false else z1) (xorb (neg x) (neg y))).
-    destruct (umul_maxprec z0 x y Wx Wy Fx Fy eq_refl Hlen Hhi) as (zP & EU & FP & MP).
-    rewrite EU. etransitivity; [apply Add_nan_iff|]. cbn [dform with_prec]. intuition congruence.
 Qed.
 
-(* ---- witness: beyond the guard of FMA_nan_iff the model (and the library) raise
-   ErrNaN on a valid operation.  x = 10^1999999999 is finite, x*x = 10^3999999998 is a
-   finite real, so x*x + (-Inf) = -Inf; but the product is first stored in a Decimal,
-   overflows to +Inf, and the final Add sees (+Inf) + (-Inf). ---- *)
-Example FMA_overflow_inf_nan :
+(* ---- no panic other than ErrNaN ---- *)
+(* For finite x, y, u the preconditions are those of FMA_correct: the exact product within
+   the exponent range (outside it: known finding K3) and the digit span of the final
+   addition within the uint32 arithmetic. *)
+Theorem FMA_no_crash zu z x y u :
+  WF x -> WF y -> WF u -> 0 <= prec z <= MaxPrec -> (zu = true -> z = u) ->
+  (dform u = Ffinite -> mdigits (mant u) < 4294967296 - 18) ->
+  (dform x = Ffinite -> dform y = Ffinite -> mdigits (mant x) + mdigits (mant y) < 4294967296 - 18) ->
+  (dform x = Ffinite -> dform y = Ffinite -> dform u = Ffinite ->
+     (scaled 1 (MinExp - 1) <= mag x * mag y)%Q /\ (mag x * mag y < scaled 1 MaxExp)%Q /\
+     (forall p', WF p' -> dform p' = Ffinite -> (mag p' == mag x * mag y)%Q -> add_span p' u + 40 < 4294967296 - 18)) ->
+  FMA zu z x y u <> CrashR.
+Proof.
+  intros Wx Wy Wu Pz Hzu Lu Lxy Hfin.
+  pose proof (FMA_special zu z x y u Wx Wy Wu Pz Hzu) as HS. unfold fma_table, mul_table in HS.
+  pose proof (WF_prec u Wu) as Pu.
+  destruct (dform x) eqn:Fx, (dform y) eqn:Fy, (dform u) eqn:Fu; cbn [SpecialPost] in HS;
+    try (destruct HS as (z' & E & _); rewrite E; discriminate);
+    try (destruct (Bool.eqb _ _); cbn [SpecialPost] in HS; destruct HS as (z' & E & _); rewrite E; discriminate);
+    try (destruct (FMA_zero_product zu z x y u Wx Wy Wu Fu
+                     ltac:(rewrite Fx, Fy; first [left; split; [reflexivity|discriminate]|right; split; [reflexivity|discriminate]])
+                     (Lu eq_refl) Pz Hzu) as (z' & E & _); rewrite E; discriminate).
+  - destruct (FMA_zero_addend zu z x y u Wx Wy Fx Fy Fu Pz Pu (Lxy eq_refl eq_refl)) as (z' & E & _).
+    rewrite E. discriminate.
+  - destruct (Hfin eq_refl eq_refl eq_refl) as (Hlo & Hhi & Hspan).
+    destruct (FMA_correct zu z x y u Wx Wy Wu Fx Fy Fu Pz Hzu (Lxy eq_refl eq_refl) Hlo Hhi Hspan) as (z' & E & _).
+    rewrite E. discriminate.
+Qed.
+
+(* ---- regression witness for the repaired overflow case: x = 10^1999999999 is finite,
+   x*x = 10^3999999998 does not fit the exponent range, and x*x + (-Inf) = -Inf
+   (the unrepaired code raised ErrNaN: the product was stored as +Inf first) ---- *)
+Example FMA_overflow_inf_ok :
   let x := mkDec [1000000000000000000] 2000000000 1 ToNearestEven Exact Ffinite false in
   let ninf := mkDec [] 0 0 ToNearestEven Exact Finf true in
-  WF x /\ WF ninf /\ ~ fma_invalid x x ninf /\ exists z', FMA false dec_zero x x ninf = NaNR z'.
+  WF x /\ WF ninf /\ ~ fma_invalid x x ninf /\
+  exists z', FMA false dec_zero x x ninf = OkR z' /\ dform z' = Finf /\ neg z' = true /\ acc z' = Exact.
 Proof.
   cbv zeta. split; [reflexivity|]. split; [reflexivity|]. split.
   - unfold fma_invalid. cbn [dform neg]. intuition discriminate.
-  - vm_compute. eexists. reflexivity.
+  - vm_compute. eexists. repeat split.
 Qed.
